@@ -52,9 +52,14 @@ def run(ctx):
         ctx.guard(unescaped, ctx, cfg, fs)
         ctx.guard(capture_pairing, ctx, cfg, fs)
         ctx.guard(sections, ctx, cfg, fs)
+        import c12 as c12_
+        ctx.guard(c12_.walker_rules, ctx, cfg, fs, 'S.sections', {'peek_front_ty': c12_.WALKERS['peek_front_ty']})
         import docwalk
         ctx.guard(docwalk.cursor_advance, ctx, cfg, fs, 'K.cursor', r'render_html$|render_markdown$|render_roff$')
         ctx.guard(docwalk.payload_writers, ctx, cfg, fs, 'K.cursor')
+        import c04 as c04_, c08 as c08_
+        ctx.guard(c08_.keep_only, ctx, lambda: c04_.str_index(ctx, cfg, fs), lambda o: 'Splitter' in o.key, 'K.cursor')
+        ctx.guard(c08_.keep_only, ctx, lambda: c04_.str_cut(ctx, cfg, fs), lambda o: 'Splitter' in o.key, 'K.cursor')
         ctx.guard(docwalk.style_reset_first, ctx, cfg, fs, 'H.html-tags', r'render_html$|render_markdown$', r'buffer::html::change_(to_markdown_)?style$')
         ctx.guard(docwalk.block_pairing, ctx, cfg, fs, 'K.skip-pairing', r'impl buffer::Doc>::render_html$', [('skip', r'buffer::Skip::push$', r'buffer::Skip::pop$')])
 
